@@ -229,6 +229,38 @@ theorem step_cmd_some {s : Sys} {i : Nat} {c : Cmd} {me : Sess} {e : Effect} (hi
   rw [List.getElem?_mapIdx, hsj]
   simp [hj]
 
+theorem step_close_none {s : Sys} {j : Nat} (hj : s.sess[j]? = none) : step s (.close j) = (s, { status := .refused }) := by
+  simp [step, hj]
+
+theorem step_close_unsel {s : Sys} {j : Nat} {sj : Sess} (hj : s.sess[j]? = some sj)
+    (he : effect s.idx sj (sidOf j) .expunge = none) : step s (.close j) = (s, { status := .refused }) := by
+  simp [step, hj, he]
+
+/-- CLOSE with a mailbox selected, seen from the issuer and from everybody else -/
+theorem step_close_some {s : Sys} {i : Nat} {me : Sess} {e : Effect} (hi : s.sess[i]? = some me)
+    (he : effect s.idx me (sidOf i) .expunge = some e) :
+    (step s (.close i)).1.idx = e.idx ∧
+    (step s (.close i)).1.sess[i]? = some ((me.applyAll (sidOf i) false e.silent e.ups).closeEnd (sidOf i)).1 ∧
+    (step s (.close i)).2 = ((me.applyAll (sidOf i) false e.silent e.ups).closeEnd (sidOf i)).2 ∧
+    (∀ (j : Nat) (sj : Sess), j ≠ i → s.sess[j]? = some sj → (step s (.close i)).1.sess[j]? = some (sj.enqueue e.ups)) ∧
+    (step s (.close i)).1.sess.length = s.sess.length := by
+  have hm1 : (s.sess.mapIdx fun j sj =>
+      if j = i then sj.applyAll (sidOf i) false e.silent e.ups else sj.enqueue e.ups)[i]? =
+      some (me.applyAll (sidOf i) false e.silent e.ups) := by
+    rw [List.getElem?_mapIdx, hi]; simp
+  have hstep : step s (.close i) =
+      ({ idx := e.idx, sess := (s.sess.mapIdx fun j sj =>
+            if j = i then sj.applyAll (sidOf i) false e.silent e.ups else sj.enqueue e.ups).set i
+          ((me.applyAll (sidOf i) false e.silent e.ups).closeEnd (sidOf i)).1 },
+        ((me.applyAll (sidOf i) false e.silent e.ups).closeEnd (sidOf i)).2) := by
+    simp only [step, hi, he, hm1, Option.getD_some]
+  rw [hstep]
+  refine ⟨rfl, getElem?_set_self' hm1, rfl, ?_, by simp⟩
+  intro j sj hj hsj
+  simp only [List.getElem?_set, Ne.symm hj, if_false]
+  rw [List.getElem?_mapIdx, hsj]
+  simp [hj]
+
 theorem lt_of_getElem?_some {α} {l : List α} {i : Nat} {x : α} (h : l[i]? = some x) : i < l.length := by
   rcases Nat.lt_or_ge i l.length with h' | h'
   · exact h'
@@ -297,7 +329,7 @@ theorem endFlushes_explicable {idx : Index} {i : Nat} {me : Sess} {mb : Nat} {m 
 /-! ### the client of session `i` along a trace -/
 
 /-- what the client of session `i` does with the answer to `op`: a successful SELECT resets its mirror to the
-    announced count, UNSELECT empties it, the untagged responses of its own commands are applied one by one
+    announced count, UNSELECT and a successful CLOSE empty it, the untagged responses of its own commands are applied one by one
     (`none`: a response is inexplicable) -/
 def observe (i : Nat) (m : Mirror) (op : SysOp) (o : Out) : Option Mirror :=
   match op with
@@ -310,6 +342,7 @@ def observe (i : Nat) (m : Mirror) (op : SysOp) (o : Out) : Option Mirror :=
   | .unselect j => if j = i ∧ o.status = .ok then some (Mirror.ofCount 0) else some m
   | .cmd j _ => if j = i then m.applyAll o.resps else some m
   | .flush j _ => if j = i then m.applyAll o.resps else some m
+  | .close j => if j = i then (if o.status = .ok then some (Mirror.ofCount 0) else m.applyAll o.resps) else some m
   | _ => some m
 
 def observeAll (i : Nat) (m : Mirror) (s : Sys) : List SysOp → Option Mirror
@@ -319,6 +352,18 @@ def observeAll (i : Nat) (m : Mirror) (s : Sys) : List SysOp → Option Mirror
 /-- the client's mirror agrees with the snapshot of session `i` whenever it has a mailbox selected -/
 def Seen (i : Nat) (s : Sys) (m : Mirror) : Prop :=
   ∀ (me : Sess) (mb : Nat), s.sess[i]? = some me → me.sel = some mb → Agree m me.snap
+
+theorem Sess.SilentFree.closeEnd {me : Sess} (h : me.SilentFree) (sid : StateId) : (me.closeEnd sid).1.SilentFree := by
+  unfold Sess.closeEnd
+  cases hr : (Gluon.flush true true sid me.snap me.res).result with
+  | err er =>
+    simp only [hr]
+    apply Sess.SilentFree.flush
+    intro r hr'
+    simp only [flush_rem, popResponders] at hr'
+    cases hr'
+  | ok out => simp only [hr]; intro r hr'; cases hr'
+  | mergePanic => simp only [hr]; intro r hr'; cases hr'
 
 theorem silentFree_setSess {s : Sys} (h : SilentFree s) {j : Nat} {sj : Sess} (hj : s.sess[j]? = some sj) {x : Sess}
     (hx : x.SilentFree) : SilentFree (s.setSess j x) := by
@@ -368,6 +413,37 @@ theorem silentFree_step {s : Sys} (h : SilentFree s) (op : SysOp) (hns : op.NoSi
       by_cases hmb : s.idx.boxes.length ≤ mb
       · rw [step_select_refused hj hmb]; exact h
       · rw [step_select_ok hj hmb]; exact silentFree_setSess h hj (fun r hr => by cases hr)
+  | close j =>
+    cases hj : s.sess[j]? with
+    | none => rw [step_close_none hj]; exact h
+    | some sj =>
+      cases he : effect s.idx sj (sidOf j) .expunge with
+      | none => rw [step_close_unsel hj he]; exact h
+      | some e =>
+        obtain ⟨_, h2, _, h4, hlen⟩ := step_close_some hj he
+        have hsil : e.silent = false := effect_silent he (by
+          intro seqs op fl silent hc
+          cases hc)
+        intro i x hx
+        by_cases hij : i = j
+        · subst hij
+          rw [h2] at hx
+          simp only [Option.some.injEq] at hx
+          subst hx
+          apply Sess.SilentFree.closeEnd
+          rw [hsil]
+          exact (h i sj hj).applyAll _ false _
+        · cases hi : s.sess[i]? with
+          | none =>
+            have := lt_of_getElem?_some hx
+            rw [hlen] at this
+            rw [List.getElem?_eq_none_iff] at hi
+            omega
+          | some si =>
+            rw [h4 i si hij hi] at hx
+            simp only [Option.some.injEq] at hx
+            subst hx
+            exact h i si hi
   | cmd j c =>
     cases hj : s.sess[j]? with
     | none => rw [(step_none hj).2.2.2.2 c]; exact h
@@ -504,6 +580,62 @@ theorem observe_step {s : Sys} (h : SysInv s) (hsf : SilentFree s) (op : SysOp) 
           · apply seen_setSess_self hj
             intro mb _; exact h3
         · exact ⟨m, by simp [observe, Ne.symm hij], seen_setSess_other hm hij _⟩
+  | close j =>
+    cases hj : s.sess[j]? with
+    | none =>
+      rw [step_close_none hj]
+      refine ⟨m, ?_, hm⟩
+      simp only [observe]; split <;> simp [Mirror.applyAll]
+    | some sj =>
+      cases he : effect s.idx sj (sidOf j) .expunge with
+      | none =>
+        rw [step_close_unsel hj he]
+        refine ⟨m, ?_, hm⟩
+        simp only [observe]; split <;> simp [Mirror.applyAll]
+      | some e =>
+        obtain ⟨h1, h2, h3, h4, hlen⟩ := step_close_some hj he
+        by_cases hij : i = j
+        · subst hij
+          have hselb : ∀ mb, sj.sel = some mb → mb < s.idx.boxes.length := by
+            intro mb hs
+            have := h.sess i sj hj
+            unfold SessInv at this
+            rw [hs] at this
+            exact this.1
+          have hsnap : ∀ mb, sj.sel = some mb → ∀ x ∈ sj.snap, x.id < s.idx.nextId := by
+            intro mb hs x hx
+            have := h.sess i sj hj
+            unfold SessInv at this
+            rw [hs] at this
+            exact this.2.2.snap x hx
+          have g := good_effect h.wf hselb hsnap he
+          have hown := (h.sess i sj hj).own g.1 e.silent (fun mb hs => hno sj mb e hj hs he)
+          obtain ⟨mb0, hs⟩ : ∃ mb, sj.sel = some mb := by
+            cases hs : sj.sel with
+            | none => simp [effect, hs] at he
+            | some mb => exact ⟨mb, rfl⟩
+          have hce := hown.closeEnd (mb := mb0) (by rw [applyAll_sel]; exact hs)
+          rw [hce] at h2 h3
+          refine ⟨Mirror.ofCount 0, ?_, ?_⟩
+          · rw [h3]; simp [observe]
+          · intro me mb hme hsel
+            rw [h2] at hme
+            simp only [Option.some.injEq] at hme
+            subst hme
+            cases hsel
+        · refine ⟨m, by simp [observe, Ne.symm hij], ?_⟩
+          intro me mb hme hsel
+          cases hi : s.sess[i]? with
+          | none =>
+            have := lt_of_getElem?_some hme
+            rw [hlen] at this
+            rw [List.getElem?_eq_none_iff] at hi
+            omega
+          | some si =>
+            rw [h4 i si hij hi] at hme
+            simp only [Option.some.injEq] at hme
+            subst hme
+            exact hm si mb hi hsel
   | cmd j c =>
     cases hj : s.sess[j]? with
     | none =>
